@@ -340,7 +340,7 @@ fn reset_faults(pre: &Machine, scn: &Scn, known: &Known, at: (usize, u32), ctx: 
 
 fn run(scn: &Scn, ctx: &mut Ctx) -> Result<(), Violation> {
     if let Some(seq) = &scn.lockstep {
-        let cfg = crate::engine::SeqCfg { prop: "C07", compare: crate::lockstep::Compare::Off, check_cost: true, compare_board: false };
+        let cfg = crate::engine::SeqCfg { prop: "C07", compare: crate::lockstep::Compare::Off, check_cost: true, compare_board: false, lenient: true };
         crate::engine::run_seq(seq, cfg, ctx, |ls, ev, ctx| {
             if *ev == crate::lockstep::Event::Boundary {
                 if let Some(i) = &ls.last {
